@@ -37,7 +37,7 @@ INJECTIONS = ['success', 'malformed', 'bad_envelope', 'unknown_method', 'invalid
               'call_listener_exc@method', 'return_listener_fault@app', 'return_listener_exc@service',
               'function_fault', 'function_exc', 'unserialisable_return', 'genfunction_fault', 'genfunction_exc',
               'genfunction_late_fault', 'genfunction_late_exc',
-              'malformed_declared', 'malformed_charset', 'malformed_declared_other', 'malformed_badbytes', 'success_declared',
+              'invalid_argument_range', 'bad_envelope_scalar', 'malformed_declared', 'malformed_charset', 'malformed_declared_other', 'malformed_badbytes', 'success_declared',
               'success_returns0', 'success_returns2', 'success_returns3', 'function_fault_returns2', 'return_listener_exc_returns2@method']
 LAYOUTS = ('app_only', 'all_levels', 'duplicates', 'diamond', 'late')
 INHERITED = ('service_base', 'service_grand', 'service_base2')
@@ -153,18 +153,21 @@ def build(kind, layout, injection, trace):
         raise Boom('f exception')
         yield n
 
+    # the argument has a range: a value outside it is a number the validator refuses, not text it cannot read
+    ArgInt = Integer(ge=-1000, le=1000)
+
     # one list of managers handed to both methods (what a helper that decorates several methods does)
     shared_mgrs = [method_mgr]
 
     class Svc(*bases):
         if inj.startswith('genfunction'):
             from spyne import Iterable
-            f = rpc(Integer, _returns=Iterable(Integer), _evmgrs=shared_mgrs)(body_gen)
+            f = rpc(ArgInt, _returns=Iterable(Integer), _evmgrs=shared_mgrs)(body_gen)
         elif nret is not None:
             # a method that returns nothing / two / three values (the response message has that many members)
-            f = rpc(Integer, _returns=(tuple([Integer] * nret) if nret else None), _evmgrs=shared_mgrs)(body)
+            f = rpc(ArgInt, _returns=(tuple([Integer] * nret) if nret else None), _evmgrs=shared_mgrs)(body)
         else:
-            f = rpc(Integer, _returns=Integer, _evmgrs=shared_mgrs)(body)
+            f = rpc(ArgInt, _returns=Integer, _evmgrs=shared_mgrs)(body)
 
         @rpc(Integer, _returns=Integer, _evmgrs=shared_mgrs)
         def g(ctx, n):
@@ -237,6 +240,16 @@ def request_for(kind, injection):
         if kind == 'msgpackrpc':
             import msgpack
             return dict(method='POST', path='/', qs='', content_type='application/x-msgpack', body=msgpack.packb([9, 1, 'f', [1]]))
+        return None
+    if inj == 'invalid_argument_range':
+        return M.encode_request(kind, 'f', [('n', 5000)])
+    if inj == 'bad_envelope_scalar':
+        # the whole request is one number
+        if kind in ('json', 'yaml'):
+            return dict(method='POST', path='/', qs='', content_type='application/json', body=b'42')
+        if kind in ('msgpack', 'msgpackrpc'):
+            import msgpack
+            return dict(method='POST', path='/', qs='', content_type='application/x-msgpack', body=msgpack.packb(42))
         return None
     if inj == 'unknown_method':
         return M.encode_request(kind, 'nosuch', [('n', 1)])
